@@ -25,7 +25,7 @@ LEVEL_NOTE = (
 )
 TECHNIQUE = "property-based testing (Hypothesis): NumberOrderedForm operations vs an independent Fock-space matrix model + coverage-guided fuzzing stage (atheris/libFuzzer driving the same strategy and oracle)"
 BUDGET = {"quick": 8000, "thorough": 200000}
-FUZZ = {"quick": 3200, "thorough": 160000}  # executions of the coverage-guided stage (vlib/fuzz.py)
+FUZZ = {"quick": 3200, "thorough": 32000}  # executions of the coverage-guided stage (vlib/fuzz.py)
 SHRINK_SECONDS = {"quick": 30, "thorough": 150}
 RULE = (
     "case = (1-3 modes of drawn statistics, expression tree: word with random parenthesisation (primary) or free tree "
